@@ -797,7 +797,8 @@ def lean_request(frame):
         return "removeRequired", {"schema": before, "name": nm if isinstance(nm, str) else ""}
     if name == "change_type":
         ch = sampled[-1] if sampled else ""
-        return "changeType", {"schema": before, "ctx": frame["ctx"], "choice": ch if isinstance(ch, str) else ""}
+        return "changeType", {"schema": before, "ctx": frame["ctx"],
+                              "choice": (ch if isinstance(ch, str) else "") if sampled else None}
     if name == "negate_constraints":
         cand = sampled[0] if sampled else ""
         enabled = sorted({e[2] for e in ev if e[0] == "flag" and e[1] == "keywords" and e[3]})
@@ -1092,6 +1093,47 @@ def diagnose_unsatisfiable(chk, op, key, impl):
         else:
             chk.violation(f"C02:negative_schema:{loc}:no-negative-value-found-for-a-negatable-schema",
                           "the negative strategy of a schema that can be violated yields nothing", rep)
+
+
+def negatable_designed(chk):
+    """The converse clause on designed operations: one input that can certainly be violated (and nothing else to violate),
+    real Hypothesis, negative mode only and both modes: the operation must get cases, and in negative-only mode the part is
+    labelled negative (a location that CAN be negated is never generated positively only)."""
+    single = [
+        ("optional-integer-header", [{"name": "X-Page-Size", "in": "header", "schema": {"type": "integer"}}], None, "headers"),
+        ("optional-boolean-cookie", [{"name": "debug", "in": "cookie", "schema": {"type": "boolean"}}], None, "cookies"),
+        ("optional-array-header", [{"name": "X-Ids", "in": "header", "schema": {"type": "array", "items": {"type": "integer"}}}], None, "headers"),
+        ("required-integer-query", [{"name": "n", "in": "query", "required": True, "schema": {"type": "integer"}}], None, "query"),
+        ("integer-path", [{"name": "id", "in": "path", "required": True, "schema": {"type": "integer"}}], None, "path_parameters"),
+        ("integer-body", [], {"type": "integer"}, "body"),
+        ("enum-header", [{"name": "X-Mode", "in": "header", "required": True, "schema": {"type": "string", "enum": ["fast", "slow"]}}], None, "headers"),
+    ]
+    for tag, params, body, kind in single:
+        d = {"parameters": params, "responses": {"200": {"description": "OK"}}}
+        if body is not None:
+            d["requestBody"] = {"required": True, "content": {"application/json": {"schema": body}}}
+        template = "/n/{id}" if any(p["in"] == "path" for p in params) else "/n"
+        raw = {"openapi": "3.0.2", "info": {"title": "t", "version": "1"}, "paths": {template: {"post": d}}}
+        op = schemathesis.openapi.from_dict(raw)[template]["POST"]
+        for modes in ([GenerationMode.NEGATIVE], [GenerationMode.POSITIVE, GenerationMode.NEGATIVE]):
+            cfg = GenerationConfig(modes=list(modes))
+            cases, stop = draw_real(op.as_strategy(generation_mode=GenerationMode.NEGATIVE, generation_config=cfg), 8, chk.seed + 31, 20)
+            key = {"operation": d, "modes": [m.value for m in modes], "designed": tag}
+            chk.case("negatable:designed", key=key, nontrivial=True, sample={**key, "cases": len(cases), "stopped": stop})
+            chk.feature(f"negatable:designed:{tag}:{'cases' if cases else stop}")
+            if stop == "error:time-limit":
+                continue
+            if not cases:
+                chk.violation("C02:negative:operation-with-a-negatable-input-gets-no-negative-case",
+                              f"{tag}: the only input of the operation can certainly be violated, yet negative generation "
+                              f"({[m.value for m in modes]}) ends with '{stop}' and no case", {"kind": "designed", **key})
+                continue
+            if len(modes) == 1:
+                unl = [c for c in cases if {k.value: v.mode.value for k, v in c.meta.components.items()}.get(kind) != "negative"]
+                if unl:
+                    chk.violation("C02:negative:negatable-part-not-labelled-negative",
+                                  f"{tag}: a negative-mode case does not label its only negatable part ({kind}) negative",
+                                  {"kind": "designed", **key})
 
 
 def labels_real(chk, variant):
@@ -2315,6 +2357,7 @@ def run(chk):
     labels_explicit(chk)
     custom_media_variants(chk)
     mutations_corr(chk)
+    negatable_designed(chk)
     labels_real(chk, variant)
     explicit_real(chk)
     filter_replay(chk)
